@@ -508,12 +508,25 @@ def rule_empty(model):
         h = probe.handlers[0] if probe.handlers else None
         rets = [x for x in ast.walk(h) if isinstance(x, ast.Return)] \
             if h else []
+        # what the handler returns: the arms of conditional expressions
+        # count separately, a local bound once to self.elses is self.elses
+        alias_ = {x.targets[0].id for x in own_nodes(fi.node)
+                  if isinstance(x, ast.Assign) and len(x.targets) == 1 and
+                  isinstance(x.targets[0], ast.Name) and
+                  norm(x.value) == 'self.elses'}
+        vals_ = []
+        for x in rets:
+            if x.value is None:
+                continue
+            vals_ += [x.value.body, x.value.orelse] if isinstance(
+                x.value, ast.IfExp) else [x.value]
         ok = h is not None and 'IndexError' in norm(h.type) and \
-            len(rets) >= 2
-        elses = any('self.elses' in norm(x.value) for x in rets
-                    if x.value is not None)
-        empty = any(isinstance(x.value, ast.Constant) and x.value.value == ''
-                    for x in rets)
+            len(vals_) >= 2
+        elses = any('self.elses' in norm(v) or any(
+            isinstance(y, ast.Name) and y.id in alias_ for y in ast.walk(v))
+            for v in vals_)
+        empty = any(isinstance(v, ast.Constant) and v.value == ''
+                    for v in vals_)
         r.instance(fi.where, f'except {norm(h.type) if h else None}',
                    'else/empty' if ok and elses and empty else 'WRONG')
         if not (ok and elses and empty):
